@@ -43,13 +43,14 @@ Theorem C14_known_site_witness : forall s, In s sites -> known_site s = true -> 
 Proof. exact known_site_witness. Qed.
 Print Assumptions C14_known_site_witness.
 
-Theorem C14_known_sites_present : List.length (filter known_site sites) = 1%nat.
+Theorem C14_known_sites_present : List.length (filter known_site sites) = 0%nat.
 Proof. exact known_sites_present. Qed.
 Print Assumptions C14_known_sites_present.
 
-Theorem C14_current_tree_refuted : ~ leak_free sites.
-Proof. exact sites_not_leak_free. Qed.
-Print Assumptions C14_current_tree_refuted.
+(* after the repair of the snapshot-name WARN (fix: commit in /repo) the WHOLE current table is leak free *)
+Theorem C14_sites_leak_free_full : leak_free sites.
+Proof. exact sites_leak_free_full. Qed.
+Print Assumptions C14_sites_leak_free_full.
 
 (* --- FINITE TABLE: hand-written Debug impls interpolate nothing sensitive, and the types that hold secrets /
        ids and must print a redaction (Secret, EncryptionConfig, MessageProcessingResult, EpochSnapshot and its managers) have one *)
